@@ -2,6 +2,7 @@ import Casm.Model.Assemble
 import Casm.Proofs.StaticMatch
 import Casm.Proofs.SwitchPass
 import Casm.Props.C02
+import Casm.Proofs.SwitchAsm
 /-!
 # C08 — the two optimisation switches never change any result
 
@@ -238,6 +239,72 @@ theorem optimised_result_is_a_solution_of_the_unoptimised_assembler (opts : Opts
   refine ⟨st, nodes, defs0, d, hf, hr, ?_⟩
   rw [resolveOnce_switch]
   exact hfix
+
+/-! ### the two settings, run side by side
+
+`st` optimises, `st.withStatic false` is the assembler started with `--debug-no-optimize-static`;
+its state is `d.unfS H`: the state of the first with the first-pass marks cleared (all but the
+marks `H` both set: `-d` definitions and function symbols). -/
+
+/-- **one pass under the two settings**: the same fatal error, or the same values and messages, and
+    — in every pass but the first — the same stability flag; in the first pass the unoptimised
+    assembler may report a change that the optimised one does not (a frozen instruction or data
+    element), never the other way round (finding F36 was the case where it did). -/
+theorem static_switch_pass_by_pass (H : Nat → Bool) (st : Static) (nodes : List AstNode) (d0 : Defs) (f : FrontOK st nodes d0)
+    (fs : FrontOKS st nodes d0 H) (first last : Bool) (hfl : first = true → last = false)
+    (d : Defs) (g : Good st nodes d0 d) (gc : GoodC st nodes d0 d H)
+    (ph : if first = true then st.opts.optStatic = true else K3 nodes d0 d) :
+    match resolveOnce st nodes first last d with
+    | .error e => resolveOnce (st.withStatic false) nodes first last (d.unfS H) = .error e
+    | .ok (d', s, r) => GoodC st nodes d0 d' H ∧
+        ∃ s2, resolveOnce (st.withStatic false) nodes first last (d.unfS H) = .ok (d'.unfS H, s2, r) ∧
+          (s2 = true → s = true) ∧ (first = false → s2 = s) :=
+  resolveOnce_sim H st nodes d0 f fs first last hfl d g gc ph
+
+/-- **the two iterations in lockstep**: whenever their first passes agree on stability, the two
+    assemblers return the same iteration count, the same values and messages, or the same errors
+    (budget at least two) -/
+theorem static_switch_lockstep (H : Nat → Bool) (st : Static) (nodes : List AstNode) (d0 : Defs)
+    (f : FrontOK st nodes d0) (fs : FrontOKS st nodes d0 H) (ho : st.opts.optStatic = true) (m : Nat)
+    (hagree : ∀ d1 r1, resolveOnce st nodes true false d0 = .ok (d1, true, r1) →
+      resolveOnce (st.withStatic false) nodes true false (d0.unfS H) = .ok (d1.unfS H, true, r1)) :
+    resolveIterativelyN (st.withStatic false) nodes (m + 2) (d0.unfS H) =
+      (resolveIterativelyN st nodes (m + 2) d0).map (usFin H) :=
+  resolveIterativelyN_switch_lockstep H st nodes d0 f fs ho m hagree
+
+/-- **a successful optimised iteration is a successful unoptimised one**, with the same values and
+    messages, lockstep or not (budget at least two) -/
+theorem optimised_success_is_unoptimised_success (H : Nat → Bool) (st : Static) (nodes : List AstNode) (d0 : Defs)
+    (f : FrontOK st nodes d0) (fs : FrontOKS st nodes d0 H) (ho : st.opts.optStatic = true) (hwf : NoClash nodes) (m : Nat)
+    (k : Nat) (d : Defs) (rep : List String) (h : resolveIterativelyN st nodes (m + 2) d0 = .ok (k, d, rep)) :
+    ∃ k', resolveIterativelyN (st.withStatic false) nodes (m + 2) (d0.unfS H) = .ok (k', d.unfS H, rep) :=
+  resolveIterativelyN_switch_success H st nodes d0 f fs ho hwf m k d rep h
+
+/-- **a definite value of the constant pre-pass is the resolver's value** for a statically known
+    expression, in every state, at every address, in every pass (finding F37 was the case where it
+    was not) -/
+theorem pre_pass_value_is_the_resolver's (st : Static) (d : Decls) (defs : Defs) (e : Expr) (hk : staticallyKnown pureP e = true)
+    (v : Value) (h : evalSimple d defs e = .ok v) (hv : v ≠ .unknown) :
+    ∃ c, ∀ s ctx, resolverEval st s ctx {} e = .ok (v, c) :=
+  evalSimple_pure st d defs e hk v h hv
+
+/-- the decidable facts about constants imply the ones the simulation uses -/
+theorem constant_facts_decided (st : Static) (nodes : List AstNode) (d0 : Defs) (h : frontOKSb st nodes d0 = true) :
+    FrontOKS st nodes d0 (markedByBoth st d0) :=
+  frontOKSb_sound st nodes d0 h
+
+/-- **C08 (static switch), end to end for acceptance**: a program the optimising assembler accepts
+    is accepted with `--debug-no-optimize-static`, with the same bits, spans and symbols (budget at
+    least two).  `FrontRel` (the two front ends return the same declarations, nodes and values, the
+    unoptimised one with the marks `markedByBoth` only) and `frontOKSb` are decidable statements
+    about this input; every correspondence run evaluates them on every program (`frel` requests). -/
+theorem accepted_with_the_optimisation_is_accepted_without (opts : Opts) (fs : SrcFiles) (roots : List (List Char))
+    (ho : opts.optStatic = true) (hmax : 2 ≤ opts.maxIter) (hrel : FrontRel opts fs roots)
+    (hS : ∀ st nodes d0, frontEnd opts fs roots = .ok (st, nodes, d0) → frontOKSb st nodes d0 = true)
+    (out : AsmOk) (h : assemble opts fs roots = .ok out) :
+    ∃ out', assemble opts.staticOff fs roots = .ok out' ∧
+      out'.bits = out.bits ∧ out'.spans = out.spans ∧ out'.symbols = out.symbols :=
+  assemble_switch_success opts fs roots ho hmax hrel hS out h
 
 /-! non-vacuity: `ld {x} => 0x10 @ x`8`; `ld 5` is statically known, `ld lbl` is not (even if a
     statically known constant is called `x`: finding F30) -/
